@@ -150,6 +150,18 @@ CHECKS = {
         design_ref='§6 C12',
         note='Namespace-aware trees only; <= 2 children exhaustively; selectors spelling a literal "p:a" attribute name via escapes are not generated.',
         technique='TLA+ namespace semantics; TLC enumeration replayed into the code; TLC validation of selects recorded on parser-built trees'),
+    'C08': dict(
+        category='model_checking',
+        text='MatchOrder.tla models the compound evaluator as an ordered list of checks with definedness preconditions; TLC checks '
+             'T-Defined for the guarded and the reordered design and refutes the order found in the code before repair (negative model). '
+             'MC_C08_shapes enumerates every element name x attribute x value shape (missing, empty, junk, valid, over-long; lists and odd API '
+             'values only on class/id/t) x context (rooted, detached, several top-level nodes, foreign namespace, inside iframe, XHTML) and every '
+             'pair (type value, other attribute); ~100 selectors taken from the parser\'s own pseudo-class tables are run through every entry '
+             'point on every element; oracle = outcome class (TypeError iff the target is not a Tag). The order of match_* calls recorded with '
+             'sys.setprofile is validated against MatchOrder by TLC.',
+        design_ref='§6 C08',
+        note='One or two attributes per element; documents of 3-5 nodes; nesting far below the recursion budget.',
+        technique='TLA+ definedness model (positive + negative) checked by TLC; TLC-enumerated element shapes replayed through all entry points; recorded check order validated'),
 }
 
 PENDING = {}
